@@ -155,8 +155,10 @@ def group_clusters(sch, groups):
                 union(a, b)
     for g in groups:
         m = [x for x in g["members"] if x in sch]
-        if len(m) >= 2 and all(b in sch[a]["remove"] or a in sch[b]["remove"]
-                               for a in m for b in m if a != b):
+        full = [a for a in m if all(b in sch[a]["remove"] for b in m if b != a)]
+        if len(m) >= 2 and len(m) == len(g["members"]) and (
+                all(b in sch[a]["remove"] or a in sch[b]["remove"] for a in m for b in m if a != b)
+                or (len(full) >= 2 and 2 * len(full) >= len(m))):
             for x in m[1:]:
                 union(m[0], x)
     out = {}
@@ -493,6 +495,33 @@ def report_static(rep, rec, formula, static):
                       formula, rec["id"], rec["file"], json.dumps(detail)[:400]))
 
 
+def builders_part(binary, d, rep, sd, nrandom):
+    """The builders the shipped schemas are assembled with (State.Extend / Set / SetRels,
+    StateAdd / StateSet, Schema.Merge / SchemaMerge): the real functions on an enumerated
+    input space, validated by TLC against Schemas.tla Part 1b (spec/TraceSchemaBuild.tla)."""
+    out = os.path.join(d, "builders.ndjson")
+    rc, o = run([binary, "schemas-build", "-out", out, "-seed", str(sd), "-n", str(nrandom)], timeout=600)
+    if rc != 0:
+        raise Inconclusive("schemas-build failed: " + o[-1500:])
+    r = tlcrun.validate_traces("TraceSchemaBuild", FLAGS, [out], timeout=1800)[0]
+    if r["result"] is None:
+        raise Inconclusive("TraceSchemaBuild failed: " + r["out"][-1500:])
+    seen = set()
+    for v in r["result"]["viol"]:
+        l, _, fn, kind = v
+        if (fn, kind) in seen:
+            continue
+        seen.add((fn, kind))
+        line = tlcrun.line_of(out, l)
+        sig = dict(formula="builders", fn=fn, kind=kind)
+        rep.violation(sig, dict(kind="builders", property=PROP, formula="builders", fn=fn, event=line),
+                      "schema builder %s does not build what the source expression says (%s): %s" % (
+                          fn, kind, json.dumps(line)[:500]))
+    for v in r["result"]["drift"][:5]:
+        rep.drift.append("builders line %d: %s %s" % (v[0], v[1], v[2]))
+    rep.coverage["builder_calls_validated"] = r["result"]["lines"]
+
+
 def check(tier):
     rep = Report(PROP, tier, "model_checking")
     B = BOUNDS[tier]
@@ -507,6 +536,9 @@ def check(tier):
             raise Inconclusive("no schema discovered")
         byid = {r["id"]: r for r in recs}
         phases["discover_dump"] = round(time.time() - t0, 1)
+        t0 = time.time()
+        builders_part(binary, d, rep, sd, 400 if tier == "quick" else 20000)
+        phases["builders"] = round(time.time() - t0, 1)
         t0 = time.time()
         chosen, modes, state_files = plan(binary, d, recs, B)
         phases["real_machine_search"] = round(time.time() - t0, 1)
@@ -677,6 +709,9 @@ def replay(path):
     binary = build_harness()
     d = scratch(PROP + "-replay")
     try:
+        if obj.get("kind") == "builders":
+            builders_part(binary, d, rep, seed(), 400)
+            return rep.finish()
         cands, recs, skipped = discover_and_dump(binary, d, rep)
         rec = next((r for r in recs if r["id"] == obj["schema"]), None)
         if rec is None:
